@@ -13,6 +13,9 @@ A. Vectorised numpy primitives of `grid_2d_util.relocated_grid_via_jit_from` / `
     argument is written as the column slice `X[:, c]` of a 2-D real array the facts are stated on the column directly,
     a[k] := X[k, c], n = X.shape[0], keyed by (X, c): program and specification then denote the mean of a column of the
     same array by the SAME constant and no array-extensionality reasoning is needed to identify them.
+    The recurrence only DEFINES the mean (no proof uses it); its trigger is an otherwise unused marker so that e-matching
+    never unrolls it (z3 matches a trigger S(k + 1) against S(n) by solving k = n - 1 and then unrolls S(n - 1), ... on
+    the symbolic length).  Inside OPAQUE_ARITH contracts the product n * m_a is written pmul18(n, m_a), see (7).
 (4) np.min(a) / np.max(a), a 1-D array    obligation  n > 0  (numpy raises ValueError on an empty array)
                                           result m, ghost index w:  0 <= w < n,  m == a[w],
                                           forall j in [0, n):  m <= a[j]      (np.max:  m >= a[j]).
@@ -57,8 +60,8 @@ B. Opaque real arithmetic, ONLY inside the contracts listed in OPAQUE_ARITH (per
     obligations of this function (20 one-dimensional temporaries, nested quantifier alternation) time out erratically.
 
 C. Re-statements that add no fact.
-(8) the two quantified facts with which the engine defines a basic slice `a[lo:hi, c]` are re-stated with their index
-    arithmetic simplified (`0 + j` -> `j`, `c - 0` -> `c`; same bound variables, same body up to z3.simplify, same triggers).
+(8) (only inside the contracts listed in NO_ARRAY_EXT) the two quantified facts with which the engine defines a basic
+    slice `a[lo:hi, c]` are re-stated with their index arithmetic simplified (`0 + j` -> `j`, `c - 0` -> `c`; same bound variables, same body up to z3.simplify, same triggers).
 (9) row store `a[i, :] = v` of a 1-D array value into a 2-D array, ONLY inside the contracts listed in
     ROW_LEN = {contract key: n}: obligations  a.shape[1] == n  and  len(v) == n, then the n element stores
     a[i, 0] = v[0], ..., a[i, n-1] = v[n-1]  (the engine's own reading stores the array term v as ONE element).
@@ -73,7 +76,10 @@ C. Re-statements that add no fact.
     vectorised function has the sort of an array ELEMENT and z3 instantiates the extensionality axiom for every pair
     of them (measured here: ~170 `array-ext` index terms, each re-triggering every element-wise fact; 100 000
     quantifier instances per obligation against 130 without).  No proof in these contracts needs to conclude that two
-    arrays are equal from their elements; without the axiom z3 proves at most what it proves with it.
+    arrays are equal from their elements; without the axiom z3 proves at most what it proves with it.  The engine's own
+    `_solve` is called unchanged; only the global z3 parameter is switched around that call.
+    COROLLARY_MATH = {contract key: [names]}: a corollary whose first call is that contract gets these opt-in axioms
+    (the engine's Corollary record has no `uses_math` field).
 """
 from __future__ import annotations
 import ast
@@ -509,8 +515,9 @@ if not getattr(Engine, "_c18_slice_simplify", False):
     def _slice_read(self, arr, idx_nodes, st, node):
         n0 = len(st.pc)
         out = _orig_slice_read(self, arr, idx_nodes, st, node)
-        for i in range(n0, len(st.pc)):
-            st.pc[i] = _resimplify(st.pc[i])
+        if self.c.key in NO_ARRAY_EXT:                    # only the contracts of this module
+            for i in range(n0, len(st.pc)):
+                st.pc[i] = _resimplify(st.pc[i])
         return out
 
     Engine.slice_read = _slice_read
